@@ -61,9 +61,10 @@ CLAIMS = {
             "Trusted: TLC; compression functions of ref/sm3ref.py and ref/sharef.py (self-tested against standard vectors). SHA-512/224 and /256 are outside the property. Messages above 2^32 bits only in the thorough tier.",
             "4/C03"),
     "C09": ("model_checking",
-            "TLC model checking of Tls.tla over all credential-fact combinations (+ negative configs) + trace validation of live handshakes with defective credentials",
+            "TLC model checking of Tls.tla over all credential-fact combinations (+ negative configs) + trace validation of live handshakes with defective credentials and of handshakes against an independent deviating peer",
             "TLC proves on the model that a verifier completes only for a valid chain and proven key possession (64 credential combinations x 3 protocols x auth modes, and that removing either check is caught); "
-            "live handshakes with credentials carrying exactly one defect each are validated against the same receive rules, so a verifier that completes with a defective peer has no explanation.",
+            "live handshakes with credentials carrying exactly one defect each are validated against the same receive rules, so a verifier that completes with a defective peer has no explanation; an independent client and server for TLCP / TLS 1.2 / TLS 1.3 (tools/roguepeer.py, over the reference primitives) "
+            "play the deviations only a hostile peer can produce (empty certificate list, CertificateVerify / ServerKeyExchange missing, under another key, algorithm label or transcript, hello extensions withheld, message sequence broken) with a correct Finished, judged by RogueTrace.tla.",
             "Trusted: TLC, harness/tlsdrv.c, tools/mkcreds.py (each credential set has exactly the named defect by construction with the reference SM2 signer / DER writer).",
             "4/C09"),
     "C10": ("fault_enumeration",
